@@ -12,6 +12,8 @@ statement kind) x layout variants that Color BASIC does not distinguish:
   digitblank  a blank between two digits of a literal or line number (`1 0`)
   datablank  blanks around a numeric or quoted DATA item, in front of an unquoted one (never inside an item)
   lead     blanks in front of a line number
+  openquote  the closing quote of a string literal that ends a line left out (`A$="AB C` for `A$="AB C"`), where the last
+             statement assigns that literal to a string variable or element: the literal's characters are content
 
 Every variant is converted by the real `convert` (and by the model, from the dumped object graph);
 the oracle compares it with the conversion of the base spelling: both rejected, or byte-identical."""
@@ -40,6 +42,7 @@ PROBES = [
     '10 ON ERR GOTO 100 : ON BRK GOTO 100\n100 END', '10 A = - 1.5E+3 + &HFF * ( B ^ 2 ) / NOT C', '10 LET A = 1 : GOSUB 10 : RETURN',
     '10 A = VARPTR ( B ) : A = PEEK ( 1024 ) : TRON : TROFF', '0 PRINT "ZERO"', '10 A = 10 : B = 1.25 : C = 100000 : D = .5 : E = 1E5',
     '10 IF A THEN 10', '10 IF A > 1 THEN IF B > 2 THEN PRINT "X" ELSE PRINT "Y"', '10 NEXT : NEXT I , J', '10 RESTORE : END : STOP',
+    '10 A$ = "HI  THERE "', '10 B = 1 : LET A$ ( 2 ) = " X Y"', '10 DIM Q$(3)\n20 Q$(1)="ABC"\n30 IF A=1 THEN N$="L R"', '10 LET Z9$=""',
     '10 PRINT TAB ( 5 ) ; "X" ; HEX$ ( 255 ) ; STR$ ( 1 ) ; VAL ( "1" ) ; ASC ( "A" ) ; CHR$ ( 65 ) ; LEN ( A$ )',
 ]
 
@@ -105,6 +108,15 @@ def variants(r, lines, tier, kind0):
         db = L.data_blanks(lines, r)
         if db:
             add("datablank", L.render_program(db[0]), db[1])
+    for li, (toks, gaps) in enumerate(lines):
+        # ... [LET] X$ = "text"  /  X$( ... ) = "text"   at the very end of a line
+        if (len(toks) >= 3 and toks[-1][1] == "str" and toks[-1][0].endswith('"') and len(toks[-1][0]) >= 2
+                and toks[-2][0] == "=" and gaps[-1] == 0
+                and (toks[-3][0].endswith("$") or toks[-3][0] == ")")
+                and not any(k in ("rem", "data") for _, k in toks)):
+            oq = [(list(t), list(g)) for t, g in lines]
+            oq[li][0][-1] = (toks[-1][0][:-1], "str")
+            add("openquote", L.render_program(oq), f"line {li}: {toks[-1][0]} without its closing quote")
     lead = [(t, list(g)) for t, g in lines]
     li = r.randrange(len(lead))
     lead[li][1][0] = r.choice([1, 2])
@@ -164,6 +176,10 @@ def status(o):
 def oracle(case, impl):
     base = case["aux"]["base"]
     note(f"layout: {case['kind']} variant compared with its base spelling ({status(base)})")
+    if case["kind"] == "openquote" and status(base) == "ok" and status(impl) != "ok":
+        # the tool documents the open literal only for a plain assignment; elsewhere it refuses (no output, nothing wrong in it)
+        note("layout: openquote variant refused (the target is not a plain string variable / element)")
+        return None
     if status(base) != status(impl):
         return (f"the base spelling is {status(base)} ({base[:40]}) but the {case['kind']} variant is {status(impl)} "
                 f"({impl[:60]}) {case['detail']}")
